@@ -242,6 +242,20 @@ def world_focus_valsets():
     return w
 
 
+def world_focus_conc():
+    """schedules (C04 C05 C06 C09): few votes for the voting and the next round that overlap in targets and signers, so that
+    two callers between the two phases of Handle*Proofs conflict, complete a quorum together, or race a round change."""
+    w = base_world()
+    V = [vote("precommit", 1, 0, {"A1": ok(1, 2)}), vote("precommit", 1, 0, {"A1": ok(2, 3)}), vote("precommit", 1, 0, {"nil": ok(1, 2, 3)}),
+         vote("precommit", 1, 1, {"nil": ok(1, 2)}), vote("precommit", 1, 0, {"A1": S([E(3), E(4, "flip")])})]
+    w["votes"] = S(V)
+    w["phs"] = S([ph("A1", 0, 1)])
+    w["replays"] = S([])
+    w["smentr"] = S([{"h": 1, "r": 0, "pub": 4}])
+    w["smvotes"] = S([])
+    return w
+
+
 def world_wide():
     """C09: every message class at every position relative to the node: heights 0..3, rounds 0..3, every
     proof shape, proposers inside/outside the set, replays for any height/round."""
@@ -293,7 +307,7 @@ def world_wide():
 
 WORLDS = {"wide": world_wide, "consumers": world_consumers, "happy": world_happy, "adversarial": world_adversarial, "equivocation": world_equivocation,
           "equivocation_heavy": lambda: world_equivocation((3, 1, 1, 2)), "replay": world_replay, "valsets": world_valsets,
-          "focus_rounds": world_focus_rounds, "focus_valsets": world_focus_valsets}
+          "focus_rounds": world_focus_rounds, "focus_valsets": world_focus_valsets, "focus_conc": world_focus_conc}
 
 
 def to_sets(v):
